@@ -58,7 +58,7 @@ PROPS = {
         "coq": "Properties/C01.v",
         "coq_extra": ["Properties/C16e.v", "Properties/C01src.v"],
         "pinchecks": ["PinChecks/PcEnforcer2Gen.v", "PinChecks/PcEnforceGen.v", "PinChecks/PcEnforcerGen.v", "PinChecks/PcLiterals.v", "PinChecks/PcBody_fmacros.v", "PinChecks/PcEffector.v", "PinChecks/PcEffectorGen.v",
-                      "PinChecks/PcBody_fconvert.v", "PinChecks/PcBody_util.v", "PinChecks/PcRegexGen.v", "Gen/RegexExamples.v", "PinChecks/PcRegexFmGen.v", "PinChecks/PcStrFnGen.v"] + ["PinChecks/PcBody_model.v", "PinChecks/PcStoreGen.v", "PinChecks/PcLinksGen.v", "PinChecks/PcRoleGraph.v", "PinChecks/PcRoleManagerGen.v"],
+                      "PinChecks/PcBody_fconvert.v", "PinChecks/PcIniGen.v", "PinChecks/PcRegexGen.v", "Gen/RegexExamples.v", "PinChecks/PcRegexFmGen.v", "PinChecks/PcStrFnGen.v"] + ["PinChecks/PcBody_model.v", "PinChecks/PcStoreGen.v", "PinChecks/PcLinksGen.v", "PinChecks/PcRoleGraph.v", "PinChecks/PcRoleManagerGen.v"],
         "gen": "c01",
         "level_text": "Coq theorem c01_enforce_is_perm: for EVERY model store, matcher AST, function table, request (any arity/types), "
                       "effect rule and flag the enforcement loop of the model equals the PERM reference (per-rule outcomes in stored order, "
@@ -171,7 +171,7 @@ PROPS.update({
     "C09": {
         "coq": "Properties/C09.v",
         "coq_extra": ["Properties/C09text.v", "Properties/C16q.v"],
-        "pinchecks": ENGINE_PINS + ["PinChecks/PcBody_util.v", "PinChecks/PcRegexGen.v", "Gen/RegexExamples.v", "PinChecks/PcRegexFmGen.v", "PinChecks/PcStrFnGen.v"],
+        "pinchecks": ENGINE_PINS + ["PinChecks/PcIniGen.v", "PinChecks/PcRegexGen.v", "Gen/RegexExamples.v", "PinChecks/PcRegexFmGen.v", "PinChecks/PcStrFnGen.v"],
         "gen": "c09",
         "level_text": "Coq theorems: AdapterSync (MemoryAdapter lines = in-memory policy, rule for rule, same order) holds after construction and is preserved by "
                       "EVERY management call with auto-save on - accepted, duplicate, refused, failed, late role-link error, panic (c09_step, c09_history, "
@@ -348,8 +348,8 @@ PROPS.update({
 PROPS.update({
     "C16": {
         "coq": "Properties/C16.v",
-        "coq_extra": ["Properties/C16q.v", "Properties/C09text.v", "Properties/C16e.v", "Properties/RegexGen.v"],
-        "pinchecks": ["PinChecks/PcBody_util.v", "PinChecks/PcRegexGen.v", "Gen/RegexExamples.v", "PinChecks/PcRegexFmGen.v", "PinChecks/PcStrFnGen.v", "PinChecks/PcBody_model.v", "PinChecks/PcStoreGen.v", "PinChecks/PcLinksGen.v", "PinChecks/PcBody_adapters.v", "PinChecks/PcAdaptersGen.v", "PinChecks/PcLiterals.v"] + ["PinChecks/PcBody_ffrontend.v"],
+        "coq_extra": ["Properties/C16q.v", "Properties/C09text.v", "Properties/C16e.v", "Properties/RegexGen.v", "Properties/IniGen.v"],
+        "pinchecks": ["PinChecks/PcIniGen.v", "PinChecks/PcRegexGen.v", "Gen/RegexExamples.v", "PinChecks/PcRegexFmGen.v", "PinChecks/PcStrFnGen.v", "PinChecks/PcBody_model.v", "PinChecks/PcStoreGen.v", "PinChecks/PcLinksGen.v", "PinChecks/PcBody_adapters.v", "PinChecks/PcAdaptersGen.v", "PinChecks/PcLiterals.v"] + ["PinChecks/PcBody_ffrontend.v"],
         "gen": "c16",
         "level_text": "Coq theorems at BYTE level over Model/Csv.v and Model/Ini.v (validated against the real functions through the cfg(casbin_verif) hooks): "
                       "c16_parse_render_row (every csv-safe row under every spacing/quoting layout parses back, scanner fuel proved adequate), file level with "
